@@ -49,10 +49,10 @@ Qed.
 (* ignore_args entries are used only where the answer is argument-independent: on an object whose _cholesky is
    @cached(name="cholesky", ignore_args=True) (the Diag family, whose matrix is diagonal: hypothesis diaglike of
    the heap invariant) whatever entry sits under the bare key is a valid factor for BOTH orientations *)
-Theorem ignore_args_sound : forall K valid compat diaglike is1x1 shifted scaled,
-  kern_ok K valid compat diaglike is1x1 shifted scaled ->
-  forall h0 i o args kw, get K i h0 = Some o -> pf_chol_ignore (o_pf K o) = true ->
-  sound K valid diaglike is1x1 shifted scaled h0 (_cholesky K i args kw)
+Theorem ignore_args_sound : forall K valid compat diaglike is1x1 shifted scaled kron,
+  kern_ok K valid compat diaglike is1x1 shifted scaled kron ->
+  forall fuel h0 i o args kw, get K i h0 = Some o -> pf_chol_ignore (o_pf K o) = true ->
+  sound K valid diaglike is1x1 shifted scaled kron h0 (_cholesky K fuel i args kw)
         (fun v => valid (AChol false) (o_mat K o) v /\ valid (AChol true) (o_mat K o) v).
 Proof. exact sound__cholesky_ignore. Qed.
 
@@ -73,28 +73,28 @@ Proof. exact MemoLaws.ignore_all_args_bare_string_oddity. Qed.
    honestly described, eigh/eigvalsh are not called on a cached ("symeig", eigenvectors=True) entry, and each
    add_low_rank / cat_rows is handed a COMPATIBLE root / inverse-root pair - for add_low_rank a non-triangular
    root), then every cache entry of every object stays valid for that object's matrix. *)
-Theorem history_invariant : forall K fl valid compat diaglike is1x1 shifted scaled,
-  kern_ok K valid compat diaglike is1x1 shifted scaled ->
+Theorem history_invariant : forall K fl valid compat diaglike is1x1 shifted scaled kron,
+  kern_ok K valid compat diaglike is1x1 shifted scaled kron ->
   forall (es : list (event K)) (s : state K),
-  Inv K valid diaglike is1x1 shifted scaled (snd s) ->
-  good_run K fl compat diaglike is1x1 shifted scaled s es ->
-  Inv K valid diaglike is1x1 shifted scaled (snd (snd (run K fl s es))).
+  Inv K valid diaglike is1x1 shifted scaled kron (snd s) ->
+  good_run K fl compat diaglike is1x1 shifted scaled kron s es ->
+  Inv K valid diaglike is1x1 shifted scaled kron (snd (snd (run K fl s es))).
 Proof.
-  intros K fl valid compat diaglike is1x1 shifted scaled KO es s I G.
-  exact (proj1 (history_invariant_gen K fl valid compat diaglike is1x1 shifted scaled KO es s I G)).
+  intros K fl valid compat diaglike is1x1 shifted scaled kron KO es s I G.
+  exact (proj1 (history_invariant_gen K fl valid compat diaglike is1x1 shifted scaled kron KO es s I G)).
 Qed.
 
 (* ... and every answer of every query in the history is a valid answer for the matrix of the object it was put
    to, whatever was asked before, in whatever order, under whatever settings *)
-Corollary C12_transparent : forall K fl valid compat diaglike is1x1 shifted scaled,
-  kern_ok K valid compat diaglike is1x1 shifted scaled ->
+Corollary C12_transparent : forall K fl valid compat diaglike is1x1 shifted scaled kron,
+  kern_ok K valid compat diaglike is1x1 shifted scaled kron ->
   forall (es : list (event K)) (s : state K),
-  Inv K valid diaglike is1x1 shifted scaled (snd s) ->
-  good_run K fl compat diaglike is1x1 shifted scaled s es ->
+  Inv K valid diaglike is1x1 shifted scaled kron (snd s) ->
+  good_run K fl compat diaglike is1x1 shifted scaled kron s es ->
   answers_ok K fl valid s es.
 Proof.
-  intros K fl valid compat diaglike is1x1 shifted scaled KO es s I G.
-  exact (proj2 (proj2 (history_invariant_gen K fl valid compat diaglike is1x1 shifted scaled KO es s I G))).
+  intros K fl valid compat diaglike is1x1 shifted scaled kron KO es s I G.
+  exact (proj2 (proj2 (history_invariant_gen K fl valid compat diaglike is1x1 shifted scaled kron KO es s I G))).
 Qed.
 
 (* the side conditions that exclude the known defects are tied to the three defect sites that are re-read from
@@ -109,31 +109,31 @@ Proof. exact repaired_lifts. Qed.
 (* hence it agrees, up to what `valid` leaves open (the tolerance / the freedom of the method), with the answer of
    the same query on a fresh clone: any object with the same matrix in any heap satisfying the invariant - in
    particular one with empty caches - gives an answer that is valid for the SAME aspect of the SAME matrix *)
-Corollary C12_fresh_clone_agrees : forall K fl valid compat diaglike is1x1 shifted scaled,
-  kern_ok K valid compat diaglike is1x1 shifted scaled ->
+Corollary C12_fresh_clone_agrees : forall K fl valid compat diaglike is1x1 shifted scaled kron,
+  kern_ok K valid compat diaglike is1x1 shifted scaled kron ->
   forall st q (h hf : heap K) i j o oc,
-  Inv K valid diaglike is1x1 shifted scaled h -> Inv K valid diaglike is1x1 shifted scaled hf ->
+  Inv K valid diaglike is1x1 shifted scaled kron h -> Inv K valid diaglike is1x1 shifted scaled kron hf ->
   get K i h = Some o -> get K j hf = Some oc -> o_mat K oc = o_mat K o ->
   query_ok K fl i q h -> query_ok K fl j q hf ->
   res_ok (fst (run_query K fl st i q h)) (valid (aspect_of_query q) (o_mat K o)) /\
   res_ok (fst (run_query K fl st j q hf)) (valid (aspect_of_query q) (o_mat K o)).
 Proof.
-  intros K fl valid compat diaglike is1x1 shifted scaled KO st q h hf i j o oc I If G Gf Em Q Qf.
+  intros K fl valid compat diaglike is1x1 shifted scaled kron KO st q h hf i j o oc I If G Gf Em Q Qf.
   split.
-  - exact (proj2 (proj2 (run_query_sound K fl valid compat diaglike is1x1 shifted scaled KO st i q h o I G Q))).
-  - rewrite <- Em. exact (proj2 (proj2 (run_query_sound K fl valid compat diaglike is1x1 shifted scaled KO st j q hf oc If Gf Qf))).
+  - exact (proj2 (proj2 (run_query_sound K fl valid compat diaglike is1x1 shifted scaled kron KO st i q h o I G Q))).
+  - rewrite <- Em. exact (proj2 (proj2 (run_query_sound K fl valid compat diaglike is1x1 shifted scaled kron KO st j q hf oc If Gf Qf))).
 Qed.
 
 (* the kernel hypotheses are satisfiable, by the very instance the correspondence shards execute ... *)
 Theorem kernel_hypotheses_satisfiable :
-  kern_ok sym_kern svalid scompat (fun _ => False) (fun _ => True) (fun _ _ => True) (fun _ _ => True).
+  kern_ok sym_kern svalid scompat (fun _ => False) (fun _ => True) (fun _ _ => True) (fun _ _ => True) (fun _ _ => True).
 Proof. exact sym_kern_ok. Qed.
 
 (* ... and so are the side conditions, on a non-trivial history (roots, a compatible add_low_rank, queries on the
    new operator, a settings switch, a Lanczos inverse root, a cat_rows) *)
 Example history_hypotheses_satisfiable :
-  good_run sym_kern fl_pinned scompat (fun _ => False) (fun _ => True) (fun _ _ => True) (fun _ _ => True) (st_default, heap1) hist_good
-  /\ Inv sym_kern svalid (fun _ => False) (fun _ => True) (fun _ _ => True) (fun _ _ => True) heap1.
+  good_run sym_kern fl_pinned scompat (fun _ => False) (fun _ => True) (fun _ _ => True) (fun _ _ => True) (fun _ _ => True) (st_default, heap1) hist_good
+  /\ Inv sym_kern svalid (fun _ => False) (fun _ => True) (fun _ _ => True) (fun _ _ => True) (fun _ _ => True) heap1.
 Proof. split; [exact hist_good_ok | exact heap1_inv]. Qed.
 
 (* ---------------------------------------------------------------- where the pinned code falsifies the statement *)
@@ -142,7 +142,7 @@ Proof. split; [exact hist_good_ok | exact heap1_inv]. Qed.
    dense update L U S~ is wrapped in TriangularLinearOperator; the transplanted entries of the new operator are
    invalid and its logdet(), which takes the triangular-root shortcut, is wrong - with valid kernels throughout *)
 Theorem add_low_rank_triangular_label_refuted :
-  ~ Inv sym_kern svalid (fun _ => False) (fun _ => True) (fun _ _ => True) (fun _ _ => True) (final hist_label) /\
+  ~ Inv sym_kern svalid (fun _ => False) (fun _ => True) (fun _ _ => True) (fun _ _ => True) (fun _ _ => True) (final hist_label) /\
   ~ answers_ok sym_kern fl_pinned svalid (st_default, heap1) hist_label /\
   entries_bad (final hist_label) = [(1, 0); (1, 1)].
 Proof. exact add_low_rank_label_refuted. Qed.
